@@ -185,13 +185,20 @@ def discharge(ob, alg, live, budget, tier):
                 w = {k: float(v) for k, v in env.items()}
         return done('refuted', 'path-reachable', witness=w, detail='goal is False on this path')
     if budget <= 0:
-        return done('undecided', 'skipped', detail='listed known finding: solver not run; ring: %s' % ring_detail)
+        return done('undecided', 'skipped', detail='solver not run (clause listed as a known finding, or the failure budget of this contract is used up); ring: %s' % ring_detail)
     # 3. SMT portfolio: structured (term-level) export and canonical (polynomial) export, z3 then cvc5
     hyps = relevant_hyps(ob.hyps, goal)
     first = min(budget, 8.0)
     solvers = []
     last_info = None
+    t_smt = time.time()
+
+    def remaining():
+        # twice the budget bounds the whole portfolio for this obligation (it used to bound each solver call)
+        return 2.0 * budget - (time.time() - t_smt)
     for style in ('term', 'canon'):
+        if style == 'canon' and remaining() <= 0:
+            break
         st, info, solver = solve.z3_check(hyps, goal, timeout_s=first, alg=alg if style == 'canon' else None)
         if st == 'proved':
             return done('proved', 'z3', axioms=info, export=style)
@@ -258,12 +265,16 @@ def discharge(ob, alg, live, budget, tier):
         if solver is not None:
             solvers.append((style, solver))
     for style, solver in solvers:
-        r = solve.cvc5_check_solver(solver, timeout_s=min(budget, 30.0))
+        if remaining() < 1.0:
+            break
+        r = solve.cvc5_check_solver(solver, timeout_s=min(remaining(), 30.0))
         if r == 'unsat':
             return done('proved', 'cvc5', export=style)
     if budget > first:
         for style, _ in solvers:
-            st, info, solver = solve.z3_check(hyps, goal, timeout_s=budget, alg=alg if style == 'canon' else None)
+            if remaining() < 2.0:
+                break
+            st, info, solver = solve.z3_check(hyps, goal, timeout_s=remaining(), alg=alg if style == 'canon' else None)
             if st == 'proved':
                 return done('proved', 'z3', axioms=info, export=style)
     return done('undecided', 'z3+cvc5', detail='%s; ring: %s' % (last_info, ring_detail))
@@ -349,16 +360,18 @@ def verify_contract(name, tier='quick', seed=0, repo=None, known=()):
                     base = re.sub(r'\[[0-9, ]*\]$', '', ob.name)
                     if base in bad_bases:
                         b = min(b, 4.0)     # a sibling entry of the same clause already failed on this path
-                    if bad_total[0] > 12:
-                        b = min(b, 2.0)     # the contract already fails in many places: do not spend the budget on each
-                    if bad_total[0] > 30:
-                        b = 0.0             # ... and beyond 30 failures only the cheap steps (samples, ring) are tried
-                    if any(re.search(k, ob.name) for k in known):
+                    if bad_total[0] > 3:
+                        b = min(b, 2.0)     # the contract already fails in several places: do not spend the budget on each
+                    if bad_total[0] > 10:
+                        b = 0.0             # ... and beyond 10 failures only the cheap steps (samples, ring) are tried
+                    is_known = any(re.search(k, ob.name) for k in known)
+                    if is_known:
                         b = 0.0     # clause listed as a known finding: samples and ring only, no solver runs
                     v = discharge(ob, alg, p.strict_live(), b, tier)
                 except EngineError as e:
                     v = dict(status='error', backend='engine', s=0.0, detail=str(e)[:300])
-                if v['status'] != 'proved':
+                    is_known = False
+                if v['status'] != 'proved' and not is_known:
                     bad_total[0] += 1
                     bad_bases.add(re.sub(r'\[[0-9, ]*\]$', '', ob.name))
                 rec = dict(name=ob.name, kind=ob.kind, path=pi, pc=pc_txt, goal=T.show(ob.goal, 4)[:200])
